@@ -138,6 +138,7 @@ impl Link {
         self.direct_set = false;
         self.ops.clear();
         self.data.clear();
+        self.data_pos = 0;
         self.symbols.clear();
         self.unlinked.clear();
     }
